@@ -201,7 +201,11 @@ class Service:
                 rule.response_body = response_body
             for (bverb, buri, bbody) in bindings:
                 ab = rule.additional_bindings.add()
-                setattr(ab, bverb, buri)
+                if bverb in ("get", "put", "post", "delete", "patch"):
+                    setattr(ab, bverb, buri)
+                else:                              # (C06) `custom {kind, path}` in an additional binding
+                    ab.custom.kind = bverb
+                    ab.custom.path = buri
                 if bbody:
                     ab.body = bbody
         for s in sigs:
